@@ -84,6 +84,7 @@ Section Safety.
   Variable s0 : store key.                       (* plz-out before the invocations start *)
   Variable todo0 : nat -> list target.           (* what invocation i has to build *)
   Hypothesis todo0_ok : forall i t, In t (todo0 i) -> In t r /\ cv (t_label t) <> None.
+  Variable n0 : nat.                             (* the number of invocations *)
 
   Notation stepL := (step key key_eqb H act true).
 
@@ -98,6 +99,7 @@ Section Safety.
   Definition curl (iv : inv) : list target := map fst (i_cur iv).
 
   Record Inv (st : state key) : Prop := {
+    I_n : st_n key st = n0;
     I_trust : trust (st_store key st);
     I_done : forall i l, In l (i_done (st_inv key st i)) -> done_ok (st_store key st) l;
     I_nofail : forall i, i_failed (st_inv key st i) = [];
@@ -221,6 +223,7 @@ Section Safety.
       { intros j' t' Hin'. unfold curl in *. rewrite inv_at in Hin'. destruct (Nat.eqb_spec j' i) as [->|?]; [|right; exact Hin'].
         cbn [iv' i_cur map fst] in Hin'. destruct Hin' as [<-|Hin']; [left; split; reflexivity|right; exact Hin']. }
       constructor.
+      + exact (I_n st HI).
       + exact (I_trust st HI).
       + intros j l0 Hin. rewrite Hd_same in Hin. apply (I_done st HI j). exact Hin.
       + intros j. rewrite inv_at. destruct (Nat.eqb_spec j i) as [->|?]; [reflexivity|apply (I_nofail st HI)].
@@ -259,6 +262,7 @@ Section Safety.
                           In l0 (i_done (st_inv key (set_both key st (st_store key st) i iv') j'))).
       { intros j' l0 Hin. rewrite inv_at. destruct (Nat.eqb_spec j' i) as [->|?]; [right; exact Hin|exact Hin]. }
       constructor.
+      + exact (I_n st HI).
       + exact (I_trust st HI).
       + intros j l0 Hin. destruct (Hd_new j l0 Hin) as [[-> ->]|Hin0]; [|apply (I_done st HI j); exact Hin0].
         exists t. split; [exact HtR|]. split; [reflexivity|exact Hgood].
@@ -298,6 +302,7 @@ Section Safety.
     assert (Ht_same : forall j', i_todo (st_inv key (set_both key st s' i iv') j') = i_todo (st_inv key st j')).
     { intros j'. rewrite inv_at. destruct (Nat.eqb_spec j' i) as [->|?]; reflexivity. }
     constructor.
+    + exact (I_n st HI).
     + apply trust_upd_none. exact (I_trust st HI).
     + intros j l0 Hin. rewrite Hd_same in Hin. cbn [st_store set_both]. apply done_ok_upd_other.
       * intros ->. apply (C j Hin).
@@ -352,6 +357,7 @@ Section Safety.
                         In l0 (i_done (st_inv key (set_both key st s' i iv') j'))).
     { intros j' l0 Hin. rewrite inv_at. destruct (Nat.eqb_spec j' i) as [->|?]; [right; exact Hin|exact Hin]. }
     constructor.
+    + exact (I_n st HI).
     + cbn [st_store set_both]. unfold s'. apply trust_upd_run; [exact (I_trust st HI)|exact HtR|exact Ha].
     + intros j l0 Hin. cbn [st_store set_both]. destruct (Hd_new j l0 Hin) as [[-> ->]|Hin0].
       * exists t. split; [exact HtR|]. split; [reflexivity|exact Hgood].
@@ -377,4 +383,220 @@ Section Safety.
     + intros l0 Hl0. cbn [st_store set_both]. unfold s'. rewrite upd_other; [apply (I_frame st HI); exact Hl0|].
       intros He. apply (Hl0 i t A). symmetry. exact He.
   Qed.
+
+  Lemma step_inv st e st' : Inv st -> stepL st e = Some st' -> Inv st'.
+  Proof.
+    intros HI Hs. destruct e as [i l|i l|i l]; cbn [step] in Hs;
+      destruct (Nat.ltb_spec i (st_n key st)) as [Hi|Hi]; try discriminate.
+    - apply (begin_inv st i l st' HI Hi Hs).
+    - apply (move_inv st i l st' HI Hi Hs).
+    - apply (end_inv st i l st' HI Hi Hs).
+  Qed.
+
+  Lemma apply_inv st e : Inv st -> Inv (apply key key_eqb H act true st e).
+  Proof. intros HI. unfold apply. destruct (stepL st e) as [st'|] eqn:Hs; [apply (step_inv st e st' HI Hs)|exact HI]. Qed.
+
+  Lemma run_inv sched : forall st, Inv st -> Inv (run key key_eqb H act true sched st).
+  Proof.
+    induction sched as [|e sched IH]; intros st HI; [exact HI|].
+    change (Inv (run key key_eqb H act true sched (apply key key_eqb H act true st e))). apply IH. apply apply_inv. exact HI.
+  Qed.
+
+  Lemma init_inv todos : trust s0 -> n0 = length todos -> (forall i, todo0 i = nth i todos []) -> Inv (init key s0 todos).
+  Proof.
+    intros Htr Hn Htd. constructor; cbn [init st_n st_store st_inv i_todo i_cur i_done i_failed].
+    - symmetry. exact Hn.
+    - exact Htr.
+    - intros i l [].
+    - reflexivity.
+    - intros i t Hin. rewrite Htd. exact Hin.
+    - intros i t [].
+    - reflexivity.
+    - intros i t Hin. left. rewrite <- Htd. exact Hin.
+    - reflexivity.
+  Qed.
+
+  (* what the invariant gives when every process has exited *)
+  Lemma inv_all_ok st : Inv st -> all_ok key st = true.
+  Proof.
+    intros HI. unfold all_ok. apply forallb_forall. intros i _. unfold inv_ok. rewrite (I_nofail st HI i). reflexivity.
+  Qed.
+
+  Lemma inv_finished_clean st : Inv st -> finished key st = true -> forall i t, i < n0 -> In t (todo0 i) ->
+    sval key (st_store key st) (t_label t) = cv (t_label t).
+  Proof.
+    intros HI Hf i t Hi Hin. unfold finished in Hf. rewrite forallb_forall in Hf.
+    assert (Hfi : inv_finished (st_inv key st i) = true).
+    { apply Hf. apply in_seq. rewrite (I_n st HI). lia. }
+    unfold inv_finished in Hfi.
+    destruct (i_todo (st_inv key st i)) eqn:E1; [|discriminate].
+    destruct (i_cur (st_inv key st i)) eqn:E2; [|discriminate].
+    destruct (I_cover st HI i t Hin) as [Ha|[Hb|Hc]].
+    - rewrite E1 in Ha. destruct Ha.
+    - unfold curl in Hb. rewrite E2 in Hb. destruct Hb.
+    - apply done_sval. apply (I_done st HI i). exact Hc.
+  Qed.
 End Safety.
+
+(* ------------------------------------------------------------------------------------------ *)
+(* the clean build of a well-formed repository satisfies the clean-build equations *)
+
+Lemma nodup_str_NoDup l : nodup_str l = true -> NoDup l.
+Proof.
+  induction l as [|x l IH]; cbn [nodup_str]; intros Hn; [constructor|].
+  apply andb_prop in Hn. destruct Hn as [H1 H2]. constructor.
+  - apply negb_true_iff in H1. apply mem_false in H1. exact H1.
+  - apply IH. exact H2.
+Qed.
+
+Lemma NoDup_map_inj {A B} (f : A -> B) l : NoDup (map f l) -> forall a b, In a l -> In b l -> f a = f b -> a = b.
+Proof.
+  induction l as [|x l IH]; intros Hnd a b Ha Hb Hf; [destruct Ha|].
+  cbn [map] in Hnd. inversion Hnd as [|y ys Hnin Hnd']. subst.
+  destruct Ha as [->|Ha], Hb as [->|Hb].
+  - reflexivity.
+  - exfalso. apply Hnin. rewrite Hf. apply in_map. exact Hb.
+  - exfalso. apply Hnin. rewrite <- Hf. apply in_map. exact Ha.
+  - apply IH; assumption.
+Qed.
+
+Lemma topo_spec ts : forall seen, topo seen ts = true -> forall pre t post, ts = pre ++ t :: post ->
+  forall d, In d (t_deps t) -> In d seen \/ In d (map t_label pre).
+Proof.
+  induction ts as [|t0 rest IH]; intros seen Ht pre t post Heq d Hd.
+  - destruct pre; discriminate.
+  - cbn [topo] in Ht. apply andb_prop in Ht. destruct Ht as [H1 H2]. destruct pre as [|p pre].
+    + cbn [app] in Heq. injection Heq as -> ->. left. rewrite forallb_forall in H1. apply mem_In. apply H1. exact Hd.
+    + cbn [app] in Heq. injection Heq as -> ->. destruct (IH _ H2 pre t post eq_refl d Hd) as [[<-|Hs]|Hp].
+      * right. left. reflexivity.
+      * left. exact Hs.
+      * right. right. exact Hp.
+Qed.
+
+Section Clean.
+  Variable act : target -> list val -> option val.
+  Notation F := (fold_left (clean_step act)).
+
+  Lemma clean_step_other cv t l : l <> t_label t -> clean_step act cv t l = cv l.
+  Proof. intros Hne. unfold clean_step. apply str_eqb_neq in Hne. rewrite Hne. reflexivity. Qed.
+
+  Lemma clean_step_same cv t :
+    clean_step act cv t (t_label t) = match gather cv (t_deps t) with Some ins => act t ins | None => None end.
+  Proof. unfold clean_step. rewrite str_eqb_refl. reflexivity. Qed.
+
+  Lemma fold_clean_other ts : forall cv l, ~ In l (map t_label ts) -> F ts cv l = cv l.
+  Proof.
+    induction ts as [|t ts IH]; intros cv l Hn; [reflexivity|]. cbn [fold_left].
+    rewrite IH by (intros Hi; apply Hn; right; exact Hi).
+    apply clean_step_other. intros ->. apply Hn. left. reflexivity.
+  Qed.
+
+  Lemma cleanv_eq r : wf_repo r = true -> forall t, In t r ->
+    cleanv act r (t_label t) = match gather (cleanv act r) (t_deps t) with Some ins => act t ins | None => None end.
+  Proof.
+    intros Hwf t Hin. unfold wf_repo in Hwf. apply andb_prop in Hwf. destruct Hwf as [Hnd Htopo].
+    apply nodup_str_NoDup in Hnd. apply in_split in Hin. destruct Hin as (pre & post & ->).
+    rewrite map_app in Hnd. cbn [map] in Hnd.
+    assert (Hpost : forall l, In l (map t_label pre) \/ l = t_label t -> ~ In l (map t_label post)).
+    { intros l Hl Hp. apply NoDup_remove in Hnd. destruct Hnd as [Hnd Hnt]. destruct Hl as [Hl| ->].
+      - revert Hnd Hl Hp. generalize (map t_label pre) (map t_label post). intros a b Hnd Hl Hp.
+        induction a as [|x a IHa]; [destruct Hl|]. cbn [app] in Hnd. inversion Hnd as [|y ys Hx Hnd']. subst.
+        destruct Hl as [->|Hl]; [apply Hx; apply in_or_app; right; exact Hp|apply IHa; assumption].
+      - apply Hnt. apply in_or_app. right. exact Hp. }
+    assert (Hpre : ~ In (t_label t) (map t_label pre)).
+    { apply NoDup_remove_2 in Hnd. intros Hp. apply Hnd. apply in_or_app. left. exact Hp. }
+    assert (Hval : forall l, In l (map t_label pre) \/ l = t_label t ->
+                     cleanv act (pre ++ t :: post) l = clean_step act (F pre (fun _ => None)) t l).
+    { intros l Hl. unfold cleanv. rewrite fold_left_app. cbn [fold_left]. apply fold_clean_other. apply Hpost. exact Hl. }
+    rewrite (Hval (t_label t)) by (right; reflexivity). rewrite clean_step_same.
+    rewrite (gather_ext (cleanv act (pre ++ t :: post)) (F pre (fun _ => None)) (t_deps t)); [reflexivity|].
+    intros d Hd. destruct (topo_spec _ _ Htopo pre t post eq_refl d Hd) as [[]|Hp].
+    rewrite (Hval d) by (left; exact Hp). apply clean_step_other. intros ->. apply Hpre. exact Hp.
+  Qed.
+End Clean.
+
+(* ------------------------------------------------------------------------------------------ *)
+(* the closed theorems *)
+
+Section Closed.
+  Variable key : Type.
+  Variable key_eqb : key -> key -> bool.
+  Variable H : target -> list val -> key.
+  Variable act : target -> list val -> option val.
+  Hypothesis key_eqb_ok : forall a b, key_eqb a b = true <-> a = b.
+  Hypothesis H_inj : forall t a b, H t a = H t b -> a = b.
+  Variable r : list target.
+  Hypothesis Hwf : wf_repo r = true.
+  Variable s0 : store key.
+  Hypothesis Htr : trusted key H act r s0.
+
+  Lemma wf_labels_inj : forall t t', In t r -> In t' r -> t_label t = t_label t' -> t = t'.
+  Proof.
+    unfold wf_repo in Hwf. apply andb_prop in Hwf. destruct Hwf as [Hnd _]. apply nodup_str_NoDup in Hnd.
+    intros t t' Ht Ht' Hl. apply (NoDup_map_inj t_label r Hnd t t' Ht Ht' Hl).
+  Qed.
+
+  Lemma todo0_of todos : requests_ok act r todos ->
+    forall i t, In t (nth i todos []) -> In t r /\ cleanv act r (t_label t) <> None.
+  Proof.
+    intros Hreq i t Hin. destruct (nth_in_or_default i todos []) as [Hi|Hd].
+    - apply (Hreq _ t Hi Hin).
+    - rewrite Hd in Hin. destruct Hin.
+  Qed.
+
+  Lemma reach_inv todos sched : requests_ok act r todos ->
+    Inv key H act r (cleanv act r) s0 (fun i => nth i todos []) (length todos)
+        (run key key_eqb H act true sched (init key s0 todos)).
+  Proof.
+    intros Hreq.
+    apply (run_inv key key_eqb H act key_eqb_ok H_inj r (cleanv act r) wf_labels_inj (cleanv_eq act r Hwf)
+                   s0 (fun i => nth i todos []) (todo0_of todos Hreq) (length todos) sched).
+    apply init_inv; [exact Htr|reflexivity|reflexivity].
+  Qed.
+
+  (* SAFETY, every schedule: nobody ever fails; when all have exited every requested target carries
+     the clean build's outputs; nothing else in plz-out has been touched *)
+  Theorem c31_safety todos sched : requests_ok act r todos ->
+    let st := run key key_eqb H act true sched (init key s0 todos) in
+    all_ok key st = true
+    /\ (finished key st = true -> forall ts t, In ts todos -> In t ts ->
+          sval key (st_store key st) (t_label t) = cleanv act r (t_label t))
+    /\ (forall l, (forall ts t, In ts todos -> In t ts -> t_label t <> l) -> st_store key st l = s0 l).
+  Proof.
+    intros Hreq st. pose proof (reach_inv todos sched Hreq) as HI. fold st in HI. split; [|split].
+    - apply (inv_all_ok _ _ _ _ _ _ _ _ _ HI).
+    - intros Hf ts t Hts Hin. destruct (In_nth todos ts [] Hts) as (i & Hi & Hnth).
+      apply (inv_finished_clean _ _ _ _ _ _ _ _ _ HI Hf i t Hi). cbv beta. rewrite Hnth. exact Hin.
+    - intros l Hl. apply (I_frame _ _ _ _ _ _ _ _ _ HI). intros i t Hin. cbv beta in Hin.
+      destruct (nth_in_or_default i todos []) as [Hi|Hd]; [apply (Hl _ t Hi Hin)|rewrite Hd in Hin; destruct Hin].
+  Qed.
+
+  (* the same plz-out as ONE process building the union, whatever the two schedules *)
+  Theorem c31_same_as_single todos single sched sched1 :
+    requests_ok act r todos -> requests_ok act r [single] ->
+    (forall l, In l (map t_label (concat todos)) <-> In l (map t_label single)) ->
+    let st := run key key_eqb H act true sched (init key s0 todos) in
+    let st1 := run key key_eqb H act true sched1 (init key s0 [single]) in
+    finished key st = true -> finished key st1 = true ->
+    all_ok key st = true /\ all_ok key st1 = true
+    /\ forall l, sval key (st_store key st) l = sval key (st_store key st1) l.
+  Proof.
+    intros Hreq Hreq1 Hun st st1 Hf Hf1.
+    destruct (c31_safety todos sched Hreq) as (Hok & Hcl & Hfr).
+    destruct (c31_safety [single] sched1 Hreq1) as (Hok1 & Hcl1 & Hfr1).
+    fold st in Hok, Hcl, Hfr. fold st1 in Hok1, Hcl1, Hfr1.
+    split; [exact Hok|]. split; [exact Hok1|]. intros l.
+    destruct (in_dec (list_eq_dec N.eq_dec) l (map t_label (concat todos))) as [Hin|Hnin].
+    - pose proof (proj1 (Hun l) Hin) as Hin1.
+      apply in_map_iff in Hin. destruct Hin as (t & <- & Hin). apply in_concat in Hin. destruct Hin as (ts & Hts & Hint).
+      apply in_map_iff in Hin1. destruct Hin1 as (t1 & Hl1 & Hin1).
+      transitivity (cleanv act r (t_label t)); [apply (Hcl Hf ts t Hts Hint)|].
+      rewrite <- Hl1. symmetry. apply (Hcl1 Hf1 single t1 (or_introl eq_refl) Hin1).
+    - assert (Hnin1 : ~ In l (map t_label single)) by (intros Hx; apply Hnin; apply Hun; exact Hx).
+      assert (E : st_store key st l = s0 l).
+      { apply Hfr. intros ts t Hts Hint <-. apply Hnin. apply in_map. apply in_concat. exists ts. split; assumption. }
+      assert (E1 : st_store key st1 l = s0 l).
+      { apply Hfr1. intros ts t [<-|[]] Hint <-. apply Hnin1. apply in_map. exact Hint. }
+      unfold sval. rewrite E, E1. reflexivity.
+  Qed.
+End Closed.
